@@ -1717,6 +1717,56 @@ def suite_publish_during_churn(tier, seed, backends=("sql",)):
     return s
 
 
+# ------------------------------------------------------------------------------------ C06: integer tag items (admitted by is_signed)
+def suite_int_tag_items(tier, seed, backends=("sql", "kv")):
+    s = Suite("oracle:ack-agrees-for-integer-tag-items")
+    s.rule = ("is_signed admits tag items that are integers; events whose e / p / t / d / expiration tags carry an integer where the backends expect "
+              "a string (a kind-5 deletion with [\"e\", 5] next to a real reference, [\"p\", 7], [\"d\", 3] on a parameterized kind, ...) are "
+              "submitted on both backends: whatever a backend decides, OK true <=> the event is stored afterwards, a refusal leaves no trace, and "
+              "a deletion that is accepted is carried out for its well-formed references; non-trivial = the item sits in a tag the backend interprets")
+    rng = rng_for(seed, "inttags")
+
+    async def one(backend):
+        env.load_config()
+        env.patch_clock()
+        sc = env.Scratch()
+        st = await (env.sql_storage(sc) if backend == "sql" else env.kv_storage(sc))
+        out = []
+        try:
+            own = [env.mk_event(0, 1, env.NOW - 60 - i, [], "own %d %d" % (i, rng.randrange(10 ** 6))) for i in range(4)]
+            for e in own:
+                await st.add_event(dict(e))
+            await env.quiesce(st)
+            shapes = [(5, [["e", 5], ["e", own[0]["id"]]]), (5, [["e", own[1]["id"]], ["e", 5]]), (5, [["e", 5]]), (1, [["p", 7]]), (1, [["t", 7], ["t", "x"]]),
+                      (30000, [["d", 3]]), (30000, [["d", 3], ["t", "again"]]), (1, [["expiration", 5]]), (1, [["e", 12345], ["p", env.PUBS[1]]]),
+                      (10002, [["r", 9]]), (5, [["e", own[2]["id"], 7]]), (1, [["delegation", 1, 2, 3]])]
+            for k, (kind, tags) in enumerate(shapes):
+                d = env.mk_event(0, kind, env.NOW - 10 + k, tags, "int item %d %d" % (k, rng.randrange(10 ** 6)))
+                before = set(await env.stored_ids(st))
+                r = await _submit(st, d)
+                await env.quiesce(st)
+                after = set(await env.stored_ids(st))
+                refs = [tg[1] for tg in tags if tg[0] == "e" and isinstance(tg[1], str)]
+                out.append({"kind": kind, "tags": tags, "ack": r, "stored": d["id"] in after, "removed_others": sorted(x[:8] for x in (before - after)),
+                            "refs_gone": [x not in after for x in refs]})
+        finally:
+            await env.close(st)
+            sc.close()
+        return out
+    for backend in backends:
+        for o in env.run(one(backend)):
+            case = {"backend": backend, "kind": o["kind"], "tags": o["tags"]}
+            s.case(case, nontrivial=o["tags"][0][0] in ("e", "d", "expiration", "delegation"))
+            s.count("%s_%s" % (backend, o["ack"].split(":")[0]))
+            if o["ack"] == "true" and not o["stored"]:
+                s.violate("ack:true-but-not-stored", case, "OK true but the event is not stored", observed=o)
+            elif o["ack"] != "true" and (o["stored"] or o["removed_others"]):
+                s.violate("ack:refused-left-trace", case, "the event was refused (%s) but left a trace" % o["ack"], observed=o)
+            elif o["ack"] == "true" and o["kind"] == 5 and not all(o["refs_gone"]):
+                s.violate("delete_ineffective", case, "the accepted deletion did not remove its author's older event it references", observed=o)
+    return s
+
+
 # ------------------------------------------------------------------------------------ C12
 CAP_SCRIPT = r'''
 import sys, json, asyncio, logging
@@ -2507,6 +2557,7 @@ def registry():
         "oracle:connections-with-equal-id-strings-stay-apart": suite_colliding_client_ids,
         "oracle:config-derived-values-follow-reload": suite_config_reload,
         "oracle:publishing-while-connections-churn": suite_publish_during_churn,
+        "oracle:ack-agrees-for-integer-tag-items": suite_int_tag_items,
         "oracle:limit-cap-plain-subscribe": suite_cap_plain_subscribe,
         "oracle:announce-every-accepted-event": suite_announce_all_accepted,
         "oracle:removed-unreachable-after-read": suite_removed_unreachable_after_read,
